@@ -215,7 +215,11 @@ def run_layout_case(ctx, conv, R, rng, size, fields, used, values=None, tag="lay
         ctx.fail("C10:decode.raises", "decode_bits raised %s" % type(e).__name__, wit, exc=e)
         return
     out2 = rng.choice([dict, dict, collections.UserDict, collections.OrderedDict, lambda: collections.ChainMap({})])()
-    conv.decode_bits(ref, {k: check[k] for k in order}, out2)
+    try:
+        conv.decode_bits(ref, {k: check[k] for k in order}, out2)
+    except Exception as e:  # noqa: BLE001
+        ctx.fail("C10:decode.raises", "decode_bits (fields in another order, result in a %s) raised %s" % (type(out2).__name__, type(e).__name__), wit, exc=e)
+        return
     ctx.add("mapping_types", type(out2).__name__)
     out2 = dict(out2)
     ctx.count("decode_calls", 2)
@@ -240,8 +244,12 @@ def run_layout_case(ctx, conv, R, rng, size, fields, used, values=None, tag="lay
     # names, or unrelated entries) must store what *this* buffer holds and leave unrelated entries alone
     other = bytearray(rng.getrandbits(8) for _ in range(len(ref)))
     out3 = {"_unrelated": 1234}
-    conv.decode_bits(other, check, out3)
-    conv.decode_bits(ref, check, out3)
+    try:
+        conv.decode_bits(other, check, out3)
+        conv.decode_bits(ref, check, out3)
+    except Exception as e:  # noqa: BLE001
+        ctx.fail("C10:decode.raises", "decode_bits into a used dictionary raised %s" % type(e).__name__, wit, exc=e)
+        return
     ctx.count("decode_calls", 2)
     ctx.count("decodes_into_used_dictionary")
     if out3.pop("_unrelated", None) != 1234:
